@@ -4,6 +4,7 @@ import (
 	"context"
 	"fmt"
 	"net"
+	"time"
 
 	"chgosim/sched"
 )
@@ -19,7 +20,9 @@ type World struct {
 	DeliverMode int
 	ChunkMax    int
 	Plan        []int
+	Gaps        map[int]time.Duration // plan index -> idle time after that segment was delivered
 	planPos     int
+	holdUntil   time.Duration
 	ShortReads  int // per-mille chance that a delivery is followed by a short read
 }
 
@@ -30,8 +33,14 @@ func (w *World) chunk(c *Conn) (n int, readCap int) {
 	switch w.DeliverMode {
 	case 1:
 		n = 1
+		if c.Delivered > 4096 {
+			n = q // byte-at-a-time for the first 4 KiB of a connection, then whatever is in flight
+		}
 	case 2:
 		m := w.ChunkMax
+		if q/64 > m {
+			m = q / 64 // keep the number of deliveries of a big transfer bounded
+		}
 		if m > q {
 			m = q
 		}
@@ -39,6 +48,11 @@ func (w *World) chunk(c *Conn) (n int, readCap int) {
 	case 3:
 		if w.planPos < len(w.Plan) {
 			n = w.Plan[w.planPos]
+			if g := w.Gaps[w.planPos]; g > 0 {
+				w.holdUntil = w.Sim.Now() + g
+				w.Sim.WakeAfter(g)
+				w.Sim.Note("net", "gap "+g.String())
+			}
 			w.planPos++
 		} else {
 			n = q
@@ -60,7 +74,7 @@ func (w *World) NewConn(p Peer) *Conn {
 	id := c.ID
 	w.Sim.AddEnv(&sched.EnvFunc{
 		N: fmt.Sprintf("net%d", id),
-		E: c.Deliverable,
+		E: func() bool { return c.Deliverable() && w.Sim.Now() >= w.holdUntil },
 		R: func() {
 			n, rc := w.chunk(c)
 			c.Deliver(n, rc)
@@ -74,6 +88,11 @@ func (w *World) NewConn(p Peer) *Conn {
 		})
 	}
 	return c
+}
+
+// SetPlan switches to explicit segmentation from now on.
+func (w *World) SetPlan(sizes []int, gaps map[int]time.Duration) {
+	w.DeliverMode, w.Plan, w.Gaps, w.planPos = 3, sizes, gaps, 0
 }
 
 // Cleanup resets every connection so that blocked calls return.
